@@ -94,7 +94,7 @@ Normal(g) ==
        chi2 |-> [n \in 1..E |-> Chi2Form(packs[n].err, g.edges[n].W)],
        errs |-> [n \in 1..E |-> EOut(packs[n].err)],
        ws |-> [n \in 1..E |-> EdgeW(g, g.edges[n])],
-       jac |-> [n \in 1..E |-> JOut(packs[n].err)] ]
+       jac |-> [n \in 1..E |-> JOut(packs[n].err)], conv |-> g.conv ]
 
 \* gradient and chi^2 only (large graphs: stationarity of a designed optimum does not need H)
 GradOnly(g) ==
@@ -111,6 +111,28 @@ GradOnly(g) ==
        chi2 |-> [n \in 1..E |-> Chi2Form(packs[n].err, g.edges[n].W)],
        errs |-> [n \in 1..E |-> EOut(packs[n].err)],
        ws |-> [n \in 1..E |-> EdgeW(g, g.edges[n])] ]
+
+\* ---------- representation changes of the same physical graph (theorem T6) ----------
+\* vperm: new position p holds old vertex vperm[p];  eperm: new position q holds old edge eperm[q]
+InvPerm(perm) == [v \in 1..Len(perm) |-> CHOOSE p \in 1..Len(perm) : perm[p] = v]
+Permuted(g, vperm, eperm) ==
+  LET inv == InvPerm(vperm) IN
+  [g EXCEPT !.verts = [p \in 1..Len(g.verts) |-> [g.verts[vperm[p]] EXCEPT !.fixed = IsFixed(g, vperm[p])]],
+            !.fixFirst = FALSE,                                       \* the same vertices stay fixed
+            !.edges = [q \in 1..Len(g.edges) |-> [g.edges[eperm[q]] EXCEPT !.vs = [j \in 1..Len(g.edges[eperm[q]].vs) |-> inv[g.edges[eperm[q]].vs[j]]]]]]
+\* index of global coordinate r (of the permuted graph) in its list of free coordinates
+PosOf(s, x) == CHOOSE k \in 1..Len(s) : s[k] = x
+\* H and b of the permuted graph are H and b of the original graph with coordinates renamed; chi^2 per edge is permuted
+PermEquivariant(g, vperm, eperm, N1, N2) ==
+  LET g2 == Permuted(g, vperm, eperm)  inv == InvPerm(vperm)
+      \* global coordinate in g2 of the coordinate r of g
+      Map(r) == LET v == VertexOf(g, r) IN GOff(g2, inv[v]) + (r - GOff(g, v))
+      nf == Len(N1.free)
+  IN /\ Len(N2.free) = nf
+     /\ \A a \in 1..nf : \A b \in 1..nf :
+          N1.H[a][b] = N2.H[PosOf(N2.free, Map(N1.free[a]))][PosOf(N2.free, Map(N1.free[b]))]
+     /\ \A a \in 1..nf : N1.b0[a] = N2.b0[PosOf(N2.free, Map(N1.free[a]))]
+     /\ \A q \in 1..Len(g.edges) : N2.chi2[q] = N1.chi2[eperm[q]]
 
 \* ---------- change of world frame ----------
 \* T: [k, t, r] lattice data of a rigid motion of the graph's pose kind (a translation for R^n graphs); every vertex is left-composed with T
